@@ -19,6 +19,23 @@ from vlib.tasks import basic
 _ROOT = basic._ROOT
 
 
+def _collected(fn: Any) -> Any:
+    """mypy raises the gc thresholds / disables the collector while it builds, and an aborted run (internal error) leaves
+    large reference cycles behind: without an explicit collection a worker grows by ~70 MB per task (observed 6-7 GB
+    and OOM kills). Collect after every task."""
+    import functools
+    import gc
+
+    @functools.wraps(fn)
+    def wrapper(*a: Any, **kw: Any) -> Any:
+        try:
+            return fn(*a, **kw)
+        finally:
+            gc.enable()
+            gc.collect()
+    return wrapper
+
+
 # ------------------------------------------------------------------------------------------------
 # in-process build that keeps the BuildResult (trees are needed: TypeInfo.mro, Block.is_unreachable, Var.final_value)
 # ------------------------------------------------------------------------------------------------
@@ -296,6 +313,7 @@ def runtime_bind(formals: list[list[Any]], actuals: list[list[Any]]) -> dict[str
         return {"sig": src, "call": csrc, "rt": str(e)}
 
 
+@_collected
 def call_batch(text: str, linenos: list[int], flags: list[str]) -> dict[str, Any]:
     """Check one generated module (prelude, then one call per line) with the real mypy, then really perform every call.
 
@@ -366,6 +384,7 @@ def call_batch(text: str, linenos: list[int], flags: list[str]) -> dict[str, Any
             "kind_cells": sorted(_kind_cells) if len(_kind_cells) != before else None}
 
 
+@_collected
 def corpus_bind(files: dict[str, str], flags: list[str], targets: list[str] | None = None) -> dict[str, Any]:
     """Check a corpus program with the recording contract on; replay every decidable observed call shape in CPython."""
     global _cac_records
@@ -408,6 +427,7 @@ def corpus_bind(files: dict[str, str], flags: list[str], targets: list[str] | No
 MRO_MSG = "Cannot determine consistent method resolution order (MRO)"
 
 
+@_collected
 def mro_batch(hiers: list[list[list[int]]], flags: list[str]) -> dict[str, Any]:
     """hiers[h][i] = ordered base indices of class i of hierarchy h. One module; TypeInfo.mro of every class from
     the real build vs type(...).__mro__."""
@@ -455,6 +475,7 @@ def mro_batch(hiers: list[list[list[int]]], flags: list[str]) -> dict[str, Any]:
     return {"hiers": out, "fail": None}
 
 
+@_collected
 def mro_direct(hiers: list[list[list[int]]]) -> dict[str, Any]:
     """The same comparison with mypy.mro.calculate_mro called directly on hand-made TypeInfos (contract on the real
     function; ~100x cheaper than a build, used for the 6-class space). Only the LAST class of every hierarchy is judged
@@ -569,6 +590,7 @@ def runtime_truth(cond: str, version: tuple[int, int], platform: str) -> Any:
     return "".join(sorted(("T" if v else "F" for v in vals), reverse=True))
 
 
+@_collected
 def reach_direct(conds: list[str], versions: list[list[int]], platforms: list[str]) -> dict[str, Any]:
     """infer_condition_value of the real tree on every condition (parsed by mypy's own parser) x target."""
     from mypy.nodes import ExpressionStmt
@@ -603,6 +625,7 @@ def reach_direct(conds: list[str], versions: list[list[int]], platforms: list[st
     return {"rows": out}
 
 
+@_collected
 def reach_build(conds: list[str], version: list[int], platform: str, native: bool) -> dict[str, Any]:
     """Full build of `if <cond>: ... else: ...` statements; static value from Block.is_unreachable of the two branches."""
     from mypy.nodes import IfStmt
@@ -800,6 +823,7 @@ def _fold_prepass(lines: list[str], first: int, n: int, flags: list[str]) -> dic
     return crashed
 
 
+@_collected
 def fold_batch(exprs: list[str], flags: list[str], mypyc: bool = False, decls: list[str] | None = None) -> dict[str, Any]:
     """`X<i>: Final = <expr>` per line. Static: every outermost constant_fold_expr result recorded during the real
     build (+ Var.final_value from the tree); runtime: exec/eval of the same text. With mypyc=True the error-free lines are
